@@ -87,6 +87,12 @@ SEEDS = {
  "C06-m6": ("PCTSPEnv.check_solution_validity counts visited customers over the whole batch (lost reduction axis)", "total prize < 1 and batch size > 1"),
  "C10-m5": ("DecodingStrategy.step passes top_p = 0 / top_k = 0 to process_logits when an action is given", "non-default top_k / top_p together with evaluate mode (re-evaluation of sampled actions)"),
  "C10-m6": ("sample_n_random_actions sums the mask over the batch axis in its replacement test", "batch with >= n rows where some instance has fewer than n admissible actions"),
+ "C01-m5": ("PCTSPEnv.__init__ stores a `stochastic` instance attribute that shadows SPCTSPEnv's class attribute (two cooperating sites)", "SPCTSPEnv: the minimum prize is checked against expected instead of revealed prizes"),
+ "C01-m6": ("TSPEnv._reset sizes the mask from generator.num_loc instead of the instance", "hand-supplied instances of another size than the generator's"),
+ "C03-m5": ("CVRPEnv._get_reward no longer prepends the depot (relies on padding to close the tour)", "the longest row of a batch / a batch of one (no trailing depot padding)"),
+ "C03-m6": ("PCTSPEnv._get_reward takes the unvisited penalty from the state's `visited` field", "get_reward on a td that is not the final state of that roll-out (evaluation, re-scoring)"),
+ "C04-m5": ("PCTSPEnv.get_action_mask: `all nodes visited` reduced over the whole batch", "batch whose rows visit all customers at different steps"),
+ "C04-m6": ("FFSPEnv._reset builds the index tables (and their batch size) only once", "two episodes with different batch sizes on the same env object"),
  "C18-m5": ("CVRPTWGenerator._generate scales the coordinates by max_loc instead of max_time", "scale=True with max_loc != max_time"),
  "C18-m6": ("MTVRPGenerator.subsample_problems keeps only the first non-zero feature of a preset (nonzero(...)[0])", "a named preset with two or more features"),
 }
